@@ -41,6 +41,29 @@ DOCS = [
 ]
 
 
+# prose documents (distinct words): paragraphs, line breaks inside paragraphs, nested markup
+PROSE = [
+    'alpha beta\ngamma  delta\n\nepsilon zeta\n', '= Head one\nalpha beta\n', '- alpha beta\n  gamma delta\n- epsilon\n', '+ alpha\n  beta gamma\n',
+    '/ Term one: alpha beta\n  gamma\n', '*alpha beta* _gamma\ndelta_ epsilon\n', 'alpha #f(1) beta\ngamma #[delta epsilon] zeta\n', 'alpha <lab> beta @ref gamma\n',
+    '#[alpha beta\ngamma]\n', '#f[alpha beta][gamma\ndelta]\n', 'alpha beta // c\ngamma delta /* d */ epsilon\n', '- alpha\n  - beta gamma\n    delta\n',
+    'alpha `raw` beta $x$ gamma\ndelta\n', '#let x = [alpha beta\n  gamma]\n', '= Head\n\nalpha beta\n\n\n\ngamma delta\n', 'alpha\\ beta gamma\n',
+    '#strong[alpha beta] gamma\n#emph[delta\nepsilon]\n', '#figure(caption: [alpha beta\ngamma])[delta epsilon]\n',
+]
+
+
+def word_pairs(tree, out=None):
+    """(word, whitespace leaf, word) for Text siblings separated by exactly one Space token"""
+    out = [] if out is None else out
+    kind, x = tree
+    if isinstance(x, list):
+        for a, b, c in zip(x, x[1:], x[2:]):
+            if a[0] == 'Text' and b[0] == 'Space' and c[0] == 'Text':
+                out.append((a[1], b, c[1]))
+        for c in x:
+            word_pairs(c, out)
+    return out
+
+
 def tree_of(S, src):
     with tempfile.NamedTemporaryFile('w', suffix='.typ', delete=False, encoding='utf-8') as f:
         f.write(src)
@@ -92,7 +115,9 @@ def explore(S, docs=None, want=('C01', 'C04', 'C05')):
             continue
         coverage['docs'] += 1
 
-        def body(ctx, tree=tree, src=src):
+        pairs = word_pairs(tree) if 'C08' in want else []
+
+        def body(ctx, tree=tree, src=src, pairs=pairs):
             m = S.machine(core, STD, ctx)
             root = build(ctx, tree, kt, [0])
             attrs = m.call_fn(f_attr, [root])
@@ -144,6 +169,20 @@ def explore(S, docs=None, want=('C01', 'C04', 'C05')):
                 info = lambda mdl, mode=mode, at=at, got=got: dict(describe(mdl), layout=mode, atoms=show_atoms(at)[:300], expected=expected, got=got)
                 if 'C01' in want:
                     ctx.must_hold(got == expected, 'C01:document-tokens-added-dropped-or-reordered', info)
+                if 'C08' in want:
+                    # prose: two words separated by one whitespace token come out separated by exactly one blank, or by exactly one
+                    # line break when the token holds one (its characters are symbolic within that class)
+                    keys = [(a[1].concrete() if a[0] == 't' and a[1].is_concrete() else None) for a in at]
+                    for w1, spc, w2 in pairs:
+                        if keys.count(w1) != 1 or keys.count(w2) != 1:
+                            continue            # words are matched by their text; repeated or split words are not decided here
+                        i1, i2 = keys.index(w1), keys.index(w2)
+                        between = [a for a in at[i1 + 1:i2] if not (a[0] == 't' and a[1].is_concrete() and a[1].concrete() == '')]
+                        has_nl = any(ord(ch) in T.TYPST_NEWLINES for ch in spc[1])
+                        ok = (i1 < i2) and (between == [('nl',)] if has_nl else (len(between) == 1 and between[0][0] == 't' and between[0][1].is_concrete() and between[0][1].concrete() == ' '))
+                        ctx.must_hold(ok, 'C08:prose-whitespace-between-words-changed',
+                                      lambda mdl, mode=mode, at=at, w1=w1, w2=w2: dict(describe(mdl), layout=mode, words=[w1, w2], atoms=show_atoms(at)[:300]))
+                        ctx.witness('prose word pair')
                 if 'C04' in want:
                     ctx.must_hold(not lb_bad, 'C04:linebreak-backslash-fused-with-following-token', info)
                     ctx.must_hold(not lc_bad, 'C04:document-line-comment-not-followed-by-line-break', info)
@@ -175,6 +214,18 @@ def confirm(S, info):
         if r[0] != 'ok':
             continue
         out = unhexs(r[1])
+        if info.get('words'):
+            w1, w2 = info['words']
+            i1, i2 = out.find(w1), out.find(w2)
+            j1, j2 = src.find(w1), src.find(w2)
+            if min(i1, i2, j1, j2) >= 0:
+                a, b = src[j1 + len(w1):j2], out[i1 + len(w1):i2]
+                na = sum(1 for ch in a if ord(ch) in T.TYPST_NEWLINES)
+                nb = b.count('\n')
+                if (na > 0) != (nb > 0) or nb > 1 or (nb == 0 and b != ' '):
+                    return dict(api='Typstyle::format_content', source=src, width=w, tab=t, output=out,
+                                what='prose changed: between %s and %s the source has %s, the output %s (%s -> %s)' % (w1, w2, show(a), show(b), show(src), show(out)))
+            continue
         err2, toks2 = leaves(S, out)
         if err2:
             return dict(api='Typstyle::format_content', source=src, width=w, tab=t, output=out, what='well-formed %s is formatted to text with syntax errors: %s' % (show(src), show(out)))
